@@ -110,6 +110,23 @@ def search(item, seed):
                                     why = check(case)
                                     if why:
                                         return dict(function="pairing", input=case, observed=why)
+    return search_shared_ids(seed or 0)
+
+
+def search_shared_ids(seed):
+    """one physical object seen by several cameras: the same uuid on several objects of one side, unique per (side, camera)"""
+    import random
+    rng = random.Random(seed * 11 + 3)
+    combos = [(u, c) for u in ("0", "1") for c in CAMS]
+    for _ in range(2500):
+        es = rng.sample(combos, rng.randint(0, 3))
+        gs = rng.sample(combos, rng.randint(0, 3))
+        est = [(u, rng.choice(LABELS), c) for u, c in es]
+        gt = [(u, rng.choice(LABELS[:2]), c) for u, c in gs]
+        case = dict(tl=rng.random() < 0.5, est=est, gt=gt, uuid_first=rng.random() < 0.5)
+        why = check(case)
+        if why:
+            return dict(function="pairing", input=case, observed=why)
     return None
 
 
